@@ -11,11 +11,21 @@
  *   NEW    when the callback reports done, one of the entries of the region carries the requested inode,
  *          name_len, name bytes and (filetype feature) type;
  *   ROOM   a free E with r >= need is used; a live E with r >= need(E) + need is split so that the entry the
- *          iterator visits next is a free entry with room for the name (linked by the next callback, see
- *          unit link_proc_two_step);  done only if the region really has room;
+ *          iterator visits next is a free entry with room for the name (which the next callback then uses, by
+ *          the first half of this clause);  done only if the region really has room;
  *   TAIL   a well-placed checksum tail is still there afterwards;
  *   FLAGS  linked => DIRENT_CHANGED|DIRENT_ABORT; any byte changed => DIRENT_CHANGED; error => DIRENT_ABORT
  *          and nothing changed; already done on entry => DIRENT_ABORT and nothing changed.
+ *
+ * Block size.  CBMC lowers every typed access (`dirent->rec_len`, `next->inode`, ...) at a SYMBOLIC offset into a byte
+ * array to an expression over ALL elements of the array, and the resulting SAT problems grow about 5x per doubling of
+ * the block (64 B: 15 s, 128 B: 70 s, 256 B: 50..130 s per pre-state case with kissat, 1 KiB: hours; SMT back ends
+ * (z3, cvc5) do not finish either).  link_proc depends on the block size only through comparisons with its `blocksize`
+ * argument / fs->blocksize, so the units use SMALL SYMBOLIC BLOCKS (64, 128 B all-in-one; 256, 512 B split into the
+ * four exhaustive pre-state cases "E unused/live x follower absorbable/not") with a symbolic offset, arbitrary
+ * content and all safety checks on.  This is stated in every unit's `assumes`: it is evidence parametric in the block
+ * size, not a proof for 1024/4096-byte blocks.  (Also noted: static objects are NOT zero under DFCC — nondet-static —
+ * so the harness assigns every superblock field the code reads.)
  */
 /* VERIF-UNIT
 {
@@ -39,6 +49,7 @@
 /* VERIF-UNIT
 {
  "name": "link_proc_128",
+ "backend": "kissat",
  "props": ["C10"],
  "level": "U",
  "tier": "quick",
@@ -71,6 +82,7 @@
  "timeout": 900,
  "functions": ["lib/ext2fs/link.c:link_proc", "lib/ext2fs/dir_iterate.c:ext2fs_get_rec_len", "lib/ext2fs/dir_iterate.c:ext2fs_set_rec_len"],
  "assumes": ["SYMBOLIC BLOCK OF 256 BYTES (blocksize argument and fs->blocksize are 256): smaller than any legal ext2 block size; link_proc and the rec_len helpers depend on the block size only through comparisons with it (and the < 65536 branch), so this is evidence parametric in the block size, not a proof for 1024/4096-byte blocks, which CBMC cannot do (every typed access at a symbolic offset costs O(block size) and the SAT problem grows ~5x per doubling: 64 B 14 s, 128 B 70 s, 256 B > 250 s per clause); pre-state case: E unused, follower not absorbable", "requested names are therefore limited to what fits (name_len <= 248); IN.namelen itself ranges over 1..255", "the entry handed to the callback satisfies what ext2fs_process_dir_block checks before calling: 4-aligned offset < blocksize-8, rec_len >= 8, multiple of 4, offset+rec_len <= blocksize, name_len+8 <= rec_len, and it is not the checksum tail (the caller does not pass DIRENT_FLAG_INCLUDE_CSUM)", "ls->namelen == strlen(ls->name) <= 255, ls->err == 0, ls->sb == fs->super, callback blocksize == fs->blocksize (block directories; inline-data directories are not covered)", "libc strncpy is an over-approximating stub in the unit: the whole block becomes arbitrary except that, at every byte position the code or the specification later reads (headers of E, of the entry behind E, of the tail slot, the frame byte k, name byte j of both entries), bytes outside dst[0..n) are unchanged and dst[j] has the ISO C value; destination range asserted to be inside the block", "without the filetype feature the type byte of the new entry is only claimed to be 0 when the reused slot's stale type byte was 0 (always the case on a filesystem that never had the feature)", "superblock feature words other than metadata_csum / filetype bits arbitrary"],
+ "backend": "kissat",
  "native": false
 }
 */
@@ -90,6 +102,7 @@
  "timeout": 900,
  "functions": ["lib/ext2fs/link.c:link_proc", "lib/ext2fs/dir_iterate.c:ext2fs_get_rec_len", "lib/ext2fs/dir_iterate.c:ext2fs_set_rec_len"],
  "assumes": ["SYMBOLIC BLOCK OF 256 BYTES (blocksize argument and fs->blocksize are 256): smaller than any legal ext2 block size; link_proc and the rec_len helpers depend on the block size only through comparisons with it (and the < 65536 branch), so this is evidence parametric in the block size, not a proof for 1024/4096-byte blocks, which CBMC cannot do (every typed access at a symbolic offset costs O(block size) and the SAT problem grows ~5x per doubling: 64 B 14 s, 128 B 70 s, 256 B > 250 s per clause); pre-state case: E unused, follower absorbable", "requested names are therefore limited to what fits (name_len <= 248); IN.namelen itself ranges over 1..255", "the entry handed to the callback satisfies what ext2fs_process_dir_block checks before calling: 4-aligned offset < blocksize-8, rec_len >= 8, multiple of 4, offset+rec_len <= blocksize, name_len+8 <= rec_len, and it is not the checksum tail (the caller does not pass DIRENT_FLAG_INCLUDE_CSUM)", "ls->namelen == strlen(ls->name) <= 255, ls->err == 0, ls->sb == fs->super, callback blocksize == fs->blocksize (block directories; inline-data directories are not covered)", "libc strncpy is an over-approximating stub in the unit: the whole block becomes arbitrary except that, at every byte position the code or the specification later reads (headers of E, of the entry behind E, of the tail slot, the frame byte k, name byte j of both entries), bytes outside dst[0..n) are unchanged and dst[j] has the ISO C value; destination range asserted to be inside the block", "without the filetype feature the type byte of the new entry is only claimed to be 0 when the reused slot's stale type byte was 0 (always the case on a filesystem that never had the feature)", "superblock feature words other than metadata_csum / filetype bits arbitrary"],
+ "backend": "kissat",
  "native": false
 }
 */
@@ -109,6 +122,7 @@
  "timeout": 900,
  "functions": ["lib/ext2fs/link.c:link_proc", "lib/ext2fs/dir_iterate.c:ext2fs_get_rec_len", "lib/ext2fs/dir_iterate.c:ext2fs_set_rec_len"],
  "assumes": ["SYMBOLIC BLOCK OF 256 BYTES (blocksize argument and fs->blocksize are 256): smaller than any legal ext2 block size; link_proc and the rec_len helpers depend on the block size only through comparisons with it (and the < 65536 branch), so this is evidence parametric in the block size, not a proof for 1024/4096-byte blocks, which CBMC cannot do (every typed access at a symbolic offset costs O(block size) and the SAT problem grows ~5x per doubling: 64 B 14 s, 128 B 70 s, 256 B > 250 s per clause); pre-state case: E live, follower not absorbable", "requested names are therefore limited to what fits (name_len <= 248); IN.namelen itself ranges over 1..255", "the entry handed to the callback satisfies what ext2fs_process_dir_block checks before calling: 4-aligned offset < blocksize-8, rec_len >= 8, multiple of 4, offset+rec_len <= blocksize, name_len+8 <= rec_len, and it is not the checksum tail (the caller does not pass DIRENT_FLAG_INCLUDE_CSUM)", "ls->namelen == strlen(ls->name) <= 255, ls->err == 0, ls->sb == fs->super, callback blocksize == fs->blocksize (block directories; inline-data directories are not covered)", "libc strncpy is an over-approximating stub in the unit: the whole block becomes arbitrary except that, at every byte position the code or the specification later reads (headers of E, of the entry behind E, of the tail slot, the frame byte k, name byte j of both entries), bytes outside dst[0..n) are unchanged and dst[j] has the ISO C value; destination range asserted to be inside the block", "without the filetype feature the type byte of the new entry is only claimed to be 0 when the reused slot's stale type byte was 0 (always the case on a filesystem that never had the feature)", "superblock feature words other than metadata_csum / filetype bits arbitrary"],
+ "backend": "kissat",
  "native": false
 }
 */
@@ -128,6 +142,166 @@
  "timeout": 900,
  "functions": ["lib/ext2fs/link.c:link_proc", "lib/ext2fs/dir_iterate.c:ext2fs_get_rec_len", "lib/ext2fs/dir_iterate.c:ext2fs_set_rec_len"],
  "assumes": ["SYMBOLIC BLOCK OF 256 BYTES (blocksize argument and fs->blocksize are 256): smaller than any legal ext2 block size; link_proc and the rec_len helpers depend on the block size only through comparisons with it (and the < 65536 branch), so this is evidence parametric in the block size, not a proof for 1024/4096-byte blocks, which CBMC cannot do (every typed access at a symbolic offset costs O(block size) and the SAT problem grows ~5x per doubling: 64 B 14 s, 128 B 70 s, 256 B > 250 s per clause); pre-state case: E live, follower absorbable", "requested names are therefore limited to what fits (name_len <= 248); IN.namelen itself ranges over 1..255", "the entry handed to the callback satisfies what ext2fs_process_dir_block checks before calling: 4-aligned offset < blocksize-8, rec_len >= 8, multiple of 4, offset+rec_len <= blocksize, name_len+8 <= rec_len, and it is not the checksum tail (the caller does not pass DIRENT_FLAG_INCLUDE_CSUM)", "ls->namelen == strlen(ls->name) <= 255, ls->err == 0, ls->sb == fs->super, callback blocksize == fs->blocksize (block directories; inline-data directories are not covered)", "libc strncpy is an over-approximating stub in the unit: the whole block becomes arbitrary except that, at every byte position the code or the specification later reads (headers of E, of the entry behind E, of the tail slot, the frame byte k, name byte j of both entries), bytes outside dst[0..n) are unchanged and dst[j] has the ISO C value; destination range asserted to be inside the block", "without the filetype feature the type byte of the new entry is only claimed to be 0 when the reused slot's stale type byte was 0 (always the case on a filesystem that never had the feature)", "superblock feature words other than metadata_csum / filetype bits arbitrary"],
+ "backend": "kissat",
+ "native": false
+}
+*/
+/* VERIF-UNIT
+{
+ "name": "link_proc_512_c0",
+ "props": ["C10"],
+ "level": "U",
+ "tier": "wip",
+ "harness": "h_link_proc",
+ "enforce": ["link_proc"],
+ "defines": ["LP_BS=512", "LP_CASE=0"],
+ "sources": ["lib/ext2fs/dir_iterate.c"],
+ "unwind": 6,
+ "unwindset": {"h_link_proc.0": 257, "strncpy.0": 257},
+ "unwind_reason": "link_proc is loop-free; only harness/stub loops are unwound: over the 255 possible name bytes (name_len is an 8-bit on-disk field); unwinding assertions on",
+ "timeout": 1800,
+ "functions": ["lib/ext2fs/link.c:link_proc", "lib/ext2fs/dir_iterate.c:ext2fs_get_rec_len", "lib/ext2fs/dir_iterate.c:ext2fs_set_rec_len"],
+ "assumes": ["SYMBOLIC BLOCK OF 512 BYTES (blocksize argument and fs->blocksize are 512): smaller than any legal ext2 block size; link_proc and the rec_len helpers depend on the block size only through comparisons with it (and the < 65536 branch), so this is evidence parametric in the block size, not a proof for 1024/4096-byte blocks, which CBMC cannot do (every typed access at a symbolic offset costs O(block size) and the SAT problem grows ~5x per doubling: 64 B 14 s, 128 B 70 s, 256 B > 250 s per clause); pre-state case: E unused, follower not absorbable", "requested names are therefore limited to what fits (name_len <= 255); IN.namelen itself ranges over 1..255", "the entry handed to the callback satisfies what ext2fs_process_dir_block checks before calling: 4-aligned offset < blocksize-8, rec_len >= 8, multiple of 4, offset+rec_len <= blocksize, name_len+8 <= rec_len, and it is not the checksum tail (the caller does not pass DIRENT_FLAG_INCLUDE_CSUM)", "ls->namelen == strlen(ls->name) <= 255, ls->err == 0, ls->sb == fs->super, callback blocksize == fs->blocksize (block directories; inline-data directories are not covered)", "libc strncpy is an over-approximating stub in the unit: the whole block becomes arbitrary except that, at every byte position the code or the specification later reads (headers of E, of the entry behind E, of the tail slot, the frame byte k, name byte j of both entries), bytes outside dst[0..n) are unchanged and dst[j] has the ISO C value; destination range asserted to be inside the block", "without the filetype feature the type byte of the new entry is only claimed to be 0 when the reused slot's stale type byte was 0 (always the case on a filesystem that never had the feature)", "superblock feature words other than metadata_csum / filetype bits arbitrary"],
+ "backend": "kissat",
+ "native": false
+}
+*/
+/* VERIF-UNIT
+{
+ "name": "link_proc_512_c1",
+ "props": ["C10"],
+ "level": "U",
+ "tier": "wip",
+ "harness": "h_link_proc",
+ "enforce": ["link_proc"],
+ "defines": ["LP_BS=512", "LP_CASE=1"],
+ "sources": ["lib/ext2fs/dir_iterate.c"],
+ "unwind": 6,
+ "unwindset": {"h_link_proc.0": 257, "strncpy.0": 257},
+ "unwind_reason": "link_proc is loop-free; only harness/stub loops are unwound: over the 255 possible name bytes (name_len is an 8-bit on-disk field); unwinding assertions on",
+ "timeout": 1800,
+ "functions": ["lib/ext2fs/link.c:link_proc", "lib/ext2fs/dir_iterate.c:ext2fs_get_rec_len", "lib/ext2fs/dir_iterate.c:ext2fs_set_rec_len"],
+ "assumes": ["SYMBOLIC BLOCK OF 512 BYTES (blocksize argument and fs->blocksize are 512): smaller than any legal ext2 block size; link_proc and the rec_len helpers depend on the block size only through comparisons with it (and the < 65536 branch), so this is evidence parametric in the block size, not a proof for 1024/4096-byte blocks, which CBMC cannot do (every typed access at a symbolic offset costs O(block size) and the SAT problem grows ~5x per doubling: 64 B 14 s, 128 B 70 s, 256 B > 250 s per clause); pre-state case: E unused, follower absorbable", "requested names are therefore limited to what fits (name_len <= 255); IN.namelen itself ranges over 1..255", "the entry handed to the callback satisfies what ext2fs_process_dir_block checks before calling: 4-aligned offset < blocksize-8, rec_len >= 8, multiple of 4, offset+rec_len <= blocksize, name_len+8 <= rec_len, and it is not the checksum tail (the caller does not pass DIRENT_FLAG_INCLUDE_CSUM)", "ls->namelen == strlen(ls->name) <= 255, ls->err == 0, ls->sb == fs->super, callback blocksize == fs->blocksize (block directories; inline-data directories are not covered)", "libc strncpy is an over-approximating stub in the unit: the whole block becomes arbitrary except that, at every byte position the code or the specification later reads (headers of E, of the entry behind E, of the tail slot, the frame byte k, name byte j of both entries), bytes outside dst[0..n) are unchanged and dst[j] has the ISO C value; destination range asserted to be inside the block", "without the filetype feature the type byte of the new entry is only claimed to be 0 when the reused slot's stale type byte was 0 (always the case on a filesystem that never had the feature)", "superblock feature words other than metadata_csum / filetype bits arbitrary"],
+ "backend": "kissat",
+ "native": false
+}
+*/
+/* VERIF-UNIT
+{
+ "name": "link_proc_512_c2",
+ "props": ["C10"],
+ "level": "U",
+ "tier": "wip",
+ "harness": "h_link_proc",
+ "enforce": ["link_proc"],
+ "defines": ["LP_BS=512", "LP_CASE=2"],
+ "sources": ["lib/ext2fs/dir_iterate.c"],
+ "unwind": 6,
+ "unwindset": {"h_link_proc.0": 257, "strncpy.0": 257},
+ "unwind_reason": "link_proc is loop-free; only harness/stub loops are unwound: over the 255 possible name bytes (name_len is an 8-bit on-disk field); unwinding assertions on",
+ "timeout": 1800,
+ "functions": ["lib/ext2fs/link.c:link_proc", "lib/ext2fs/dir_iterate.c:ext2fs_get_rec_len", "lib/ext2fs/dir_iterate.c:ext2fs_set_rec_len"],
+ "assumes": ["SYMBOLIC BLOCK OF 512 BYTES (blocksize argument and fs->blocksize are 512): smaller than any legal ext2 block size; link_proc and the rec_len helpers depend on the block size only through comparisons with it (and the < 65536 branch), so this is evidence parametric in the block size, not a proof for 1024/4096-byte blocks, which CBMC cannot do (every typed access at a symbolic offset costs O(block size) and the SAT problem grows ~5x per doubling: 64 B 14 s, 128 B 70 s, 256 B > 250 s per clause); pre-state case: E live, follower not absorbable", "requested names are therefore limited to what fits (name_len <= 255); IN.namelen itself ranges over 1..255", "the entry handed to the callback satisfies what ext2fs_process_dir_block checks before calling: 4-aligned offset < blocksize-8, rec_len >= 8, multiple of 4, offset+rec_len <= blocksize, name_len+8 <= rec_len, and it is not the checksum tail (the caller does not pass DIRENT_FLAG_INCLUDE_CSUM)", "ls->namelen == strlen(ls->name) <= 255, ls->err == 0, ls->sb == fs->super, callback blocksize == fs->blocksize (block directories; inline-data directories are not covered)", "libc strncpy is an over-approximating stub in the unit: the whole block becomes arbitrary except that, at every byte position the code or the specification later reads (headers of E, of the entry behind E, of the tail slot, the frame byte k, name byte j of both entries), bytes outside dst[0..n) are unchanged and dst[j] has the ISO C value; destination range asserted to be inside the block", "without the filetype feature the type byte of the new entry is only claimed to be 0 when the reused slot's stale type byte was 0 (always the case on a filesystem that never had the feature)", "superblock feature words other than metadata_csum / filetype bits arbitrary"],
+ "backend": "kissat",
+ "native": false
+}
+*/
+/* VERIF-UNIT
+{
+ "name": "link_proc_512_c3",
+ "props": ["C10"],
+ "level": "U",
+ "tier": "wip",
+ "harness": "h_link_proc",
+ "enforce": ["link_proc"],
+ "defines": ["LP_BS=512", "LP_CASE=3"],
+ "sources": ["lib/ext2fs/dir_iterate.c"],
+ "unwind": 6,
+ "unwindset": {"h_link_proc.0": 257, "strncpy.0": 257},
+ "unwind_reason": "link_proc is loop-free; only harness/stub loops are unwound: over the 255 possible name bytes (name_len is an 8-bit on-disk field); unwinding assertions on",
+ "timeout": 1800,
+ "functions": ["lib/ext2fs/link.c:link_proc", "lib/ext2fs/dir_iterate.c:ext2fs_get_rec_len", "lib/ext2fs/dir_iterate.c:ext2fs_set_rec_len"],
+ "assumes": ["SYMBOLIC BLOCK OF 512 BYTES (blocksize argument and fs->blocksize are 512): smaller than any legal ext2 block size; link_proc and the rec_len helpers depend on the block size only through comparisons with it (and the < 65536 branch), so this is evidence parametric in the block size, not a proof for 1024/4096-byte blocks, which CBMC cannot do (every typed access at a symbolic offset costs O(block size) and the SAT problem grows ~5x per doubling: 64 B 14 s, 128 B 70 s, 256 B > 250 s per clause); pre-state case: E live, follower absorbable", "requested names are therefore limited to what fits (name_len <= 255); IN.namelen itself ranges over 1..255", "the entry handed to the callback satisfies what ext2fs_process_dir_block checks before calling: 4-aligned offset < blocksize-8, rec_len >= 8, multiple of 4, offset+rec_len <= blocksize, name_len+8 <= rec_len, and it is not the checksum tail (the caller does not pass DIRENT_FLAG_INCLUDE_CSUM)", "ls->namelen == strlen(ls->name) <= 255, ls->err == 0, ls->sb == fs->super, callback blocksize == fs->blocksize (block directories; inline-data directories are not covered)", "libc strncpy is an over-approximating stub in the unit: the whole block becomes arbitrary except that, at every byte position the code or the specification later reads (headers of E, of the entry behind E, of the tail slot, the frame byte k, name byte j of both entries), bytes outside dst[0..n) are unchanged and dst[j] has the ISO C value; destination range asserted to be inside the block", "without the filetype feature the type byte of the new entry is only claimed to be 0 when the reused slot's stale type byte was 0 (always the case on a filesystem that never had the feature)", "superblock feature words other than metadata_csum / filetype bits arbitrary"],
+ "backend": "kissat",
+ "native": false
+}
+*/
+/* VERIF-UNIT
+{
+ "name": "link_proc_1k_c0",
+ "props": ["C10"],
+ "level": "U",
+ "tier": "wip",
+ "harness": "h_link_proc",
+ "enforce": ["link_proc"],
+ "defines": ["LP_BS=1024", "LP_CASE=0"],
+ "sources": ["lib/ext2fs/dir_iterate.c"],
+ "unwind": 6,
+ "unwindset": {"h_link_proc.0": 257, "strncpy.0": 257},
+ "unwind_reason": "link_proc is loop-free; only harness/stub loops are unwound: over the 255 possible name bytes (name_len is an 8-bit on-disk field); unwinding assertions on",
+ "timeout": 3000,
+ "functions": ["lib/ext2fs/link.c:link_proc", "lib/ext2fs/dir_iterate.c:ext2fs_get_rec_len", "lib/ext2fs/dir_iterate.c:ext2fs_set_rec_len"],
+ "assumes": ["SYMBOLIC BLOCK OF 1024 BYTES (blocksize argument and fs->blocksize are 1024): smaller than any legal ext2 block size; link_proc and the rec_len helpers depend on the block size only through comparisons with it (and the < 65536 branch), so this is evidence parametric in the block size, not a proof for 1024/4096-byte blocks, which CBMC cannot do (every typed access at a symbolic offset costs O(block size) and the SAT problem grows ~5x per doubling: 64 B 14 s, 128 B 70 s, 256 B > 250 s per clause); pre-state case: E unused, follower not absorbable", "requested names are therefore limited to what fits (name_len <= 255); IN.namelen itself ranges over 1..255", "the entry handed to the callback satisfies what ext2fs_process_dir_block checks before calling: 4-aligned offset < blocksize-8, rec_len >= 8, multiple of 4, offset+rec_len <= blocksize, name_len+8 <= rec_len, and it is not the checksum tail (the caller does not pass DIRENT_FLAG_INCLUDE_CSUM)", "ls->namelen == strlen(ls->name) <= 255, ls->err == 0, ls->sb == fs->super, callback blocksize == fs->blocksize (block directories; inline-data directories are not covered)", "libc strncpy is an over-approximating stub in the unit: the whole block becomes arbitrary except that, at every byte position the code or the specification later reads (headers of E, of the entry behind E, of the tail slot, the frame byte k, name byte j of both entries), bytes outside dst[0..n) are unchanged and dst[j] has the ISO C value; destination range asserted to be inside the block", "without the filetype feature the type byte of the new entry is only claimed to be 0 when the reused slot's stale type byte was 0 (always the case on a filesystem that never had the feature)", "superblock feature words other than metadata_csum / filetype bits arbitrary"],
+ "backend": "kissat",
+ "native": false
+}
+*/
+/* VERIF-UNIT
+{
+ "name": "link_proc_1k_c1",
+ "props": ["C10"],
+ "level": "U",
+ "tier": "wip",
+ "harness": "h_link_proc",
+ "enforce": ["link_proc"],
+ "defines": ["LP_BS=1024", "LP_CASE=1"],
+ "sources": ["lib/ext2fs/dir_iterate.c"],
+ "unwind": 6,
+ "unwindset": {"h_link_proc.0": 257, "strncpy.0": 257},
+ "unwind_reason": "link_proc is loop-free; only harness/stub loops are unwound: over the 255 possible name bytes (name_len is an 8-bit on-disk field); unwinding assertions on",
+ "timeout": 3000,
+ "functions": ["lib/ext2fs/link.c:link_proc", "lib/ext2fs/dir_iterate.c:ext2fs_get_rec_len", "lib/ext2fs/dir_iterate.c:ext2fs_set_rec_len"],
+ "assumes": ["SYMBOLIC BLOCK OF 1024 BYTES (blocksize argument and fs->blocksize are 1024): smaller than any legal ext2 block size; link_proc and the rec_len helpers depend on the block size only through comparisons with it (and the < 65536 branch), so this is evidence parametric in the block size, not a proof for 1024/4096-byte blocks, which CBMC cannot do (every typed access at a symbolic offset costs O(block size) and the SAT problem grows ~5x per doubling: 64 B 14 s, 128 B 70 s, 256 B > 250 s per clause); pre-state case: E unused, follower absorbable", "requested names are therefore limited to what fits (name_len <= 255); IN.namelen itself ranges over 1..255", "the entry handed to the callback satisfies what ext2fs_process_dir_block checks before calling: 4-aligned offset < blocksize-8, rec_len >= 8, multiple of 4, offset+rec_len <= blocksize, name_len+8 <= rec_len, and it is not the checksum tail (the caller does not pass DIRENT_FLAG_INCLUDE_CSUM)", "ls->namelen == strlen(ls->name) <= 255, ls->err == 0, ls->sb == fs->super, callback blocksize == fs->blocksize (block directories; inline-data directories are not covered)", "libc strncpy is an over-approximating stub in the unit: the whole block becomes arbitrary except that, at every byte position the code or the specification later reads (headers of E, of the entry behind E, of the tail slot, the frame byte k, name byte j of both entries), bytes outside dst[0..n) are unchanged and dst[j] has the ISO C value; destination range asserted to be inside the block", "without the filetype feature the type byte of the new entry is only claimed to be 0 when the reused slot's stale type byte was 0 (always the case on a filesystem that never had the feature)", "superblock feature words other than metadata_csum / filetype bits arbitrary"],
+ "backend": "kissat",
+ "native": false
+}
+*/
+/* VERIF-UNIT
+{
+ "name": "link_proc_1k_c2",
+ "props": ["C10"],
+ "level": "U",
+ "tier": "wip",
+ "harness": "h_link_proc",
+ "enforce": ["link_proc"],
+ "defines": ["LP_BS=1024", "LP_CASE=2"],
+ "sources": ["lib/ext2fs/dir_iterate.c"],
+ "unwind": 6,
+ "unwindset": {"h_link_proc.0": 257, "strncpy.0": 257},
+ "unwind_reason": "link_proc is loop-free; only harness/stub loops are unwound: over the 255 possible name bytes (name_len is an 8-bit on-disk field); unwinding assertions on",
+ "timeout": 3000,
+ "functions": ["lib/ext2fs/link.c:link_proc", "lib/ext2fs/dir_iterate.c:ext2fs_get_rec_len", "lib/ext2fs/dir_iterate.c:ext2fs_set_rec_len"],
+ "assumes": ["SYMBOLIC BLOCK OF 1024 BYTES (blocksize argument and fs->blocksize are 1024): smaller than any legal ext2 block size; link_proc and the rec_len helpers depend on the block size only through comparisons with it (and the < 65536 branch), so this is evidence parametric in the block size, not a proof for 1024/4096-byte blocks, which CBMC cannot do (every typed access at a symbolic offset costs O(block size) and the SAT problem grows ~5x per doubling: 64 B 14 s, 128 B 70 s, 256 B > 250 s per clause); pre-state case: E live, follower not absorbable", "requested names are therefore limited to what fits (name_len <= 255); IN.namelen itself ranges over 1..255", "the entry handed to the callback satisfies what ext2fs_process_dir_block checks before calling: 4-aligned offset < blocksize-8, rec_len >= 8, multiple of 4, offset+rec_len <= blocksize, name_len+8 <= rec_len, and it is not the checksum tail (the caller does not pass DIRENT_FLAG_INCLUDE_CSUM)", "ls->namelen == strlen(ls->name) <= 255, ls->err == 0, ls->sb == fs->super, callback blocksize == fs->blocksize (block directories; inline-data directories are not covered)", "libc strncpy is an over-approximating stub in the unit: the whole block becomes arbitrary except that, at every byte position the code or the specification later reads (headers of E, of the entry behind E, of the tail slot, the frame byte k, name byte j of both entries), bytes outside dst[0..n) are unchanged and dst[j] has the ISO C value; destination range asserted to be inside the block", "without the filetype feature the type byte of the new entry is only claimed to be 0 when the reused slot's stale type byte was 0 (always the case on a filesystem that never had the feature)", "superblock feature words other than metadata_csum / filetype bits arbitrary"],
+ "backend": "kissat",
+ "native": false
+}
+*/
+/* VERIF-UNIT
+{
+ "name": "link_proc_1k_c3",
+ "props": ["C10"],
+ "level": "U",
+ "tier": "wip",
+ "harness": "h_link_proc",
+ "enforce": ["link_proc"],
+ "defines": ["LP_BS=1024", "LP_CASE=3"],
+ "sources": ["lib/ext2fs/dir_iterate.c"],
+ "unwind": 6,
+ "unwindset": {"h_link_proc.0": 257, "strncpy.0": 257},
+ "unwind_reason": "link_proc is loop-free; only harness/stub loops are unwound: over the 255 possible name bytes (name_len is an 8-bit on-disk field); unwinding assertions on",
+ "timeout": 3000,
+ "functions": ["lib/ext2fs/link.c:link_proc", "lib/ext2fs/dir_iterate.c:ext2fs_get_rec_len", "lib/ext2fs/dir_iterate.c:ext2fs_set_rec_len"],
+ "assumes": ["SYMBOLIC BLOCK OF 1024 BYTES (blocksize argument and fs->blocksize are 1024): smaller than any legal ext2 block size; link_proc and the rec_len helpers depend on the block size only through comparisons with it (and the < 65536 branch), so this is evidence parametric in the block size, not a proof for 1024/4096-byte blocks, which CBMC cannot do (every typed access at a symbolic offset costs O(block size) and the SAT problem grows ~5x per doubling: 64 B 14 s, 128 B 70 s, 256 B > 250 s per clause); pre-state case: E live, follower absorbable", "requested names are therefore limited to what fits (name_len <= 255); IN.namelen itself ranges over 1..255", "the entry handed to the callback satisfies what ext2fs_process_dir_block checks before calling: 4-aligned offset < blocksize-8, rec_len >= 8, multiple of 4, offset+rec_len <= blocksize, name_len+8 <= rec_len, and it is not the checksum tail (the caller does not pass DIRENT_FLAG_INCLUDE_CSUM)", "ls->namelen == strlen(ls->name) <= 255, ls->err == 0, ls->sb == fs->super, callback blocksize == fs->blocksize (block directories; inline-data directories are not covered)", "libc strncpy is an over-approximating stub in the unit: the whole block becomes arbitrary except that, at every byte position the code or the specification later reads (headers of E, of the entry behind E, of the tail slot, the frame byte k, name byte j of both entries), bytes outside dst[0..n) are unchanged and dst[j] has the ISO C value; destination range asserted to be inside the block", "without the filetype feature the type byte of the new entry is only claimed to be 0 when the reused slot's stale type byte was 0 (always the case on a filesystem that never had the feature)", "superblock feature words other than metadata_csum / filetype bits arbitrary"],
  "backend": "kissat",
  "native": false
 }
